@@ -562,7 +562,10 @@ class Interp:
         if c in self.ext_consts:
             return self.ext_consts[c](self, st)
         # unit-like / tuple constant of an ADT:  path::Name  |  path::Name(()) | path::Name {{ .. }}
-        m = re.fullmatch(r'((?:[\w]+::)*\w+)(?:::<.*>)?(?:\(.*\)| \{\{.*\}\})?', c)
+        cc = c
+        if '::<' in c and not c.startswith('<'):
+            cc = '::'.join(x for k_, x in enumerate(split_top(c, '::')) if not (k_ > 0 and x.startswith('<')))
+        m = re.fullmatch(r'((?:[\w]+::)*\w+)(?:::<.*>)?(?:\(.*\)| \{\{.*\}\})?', cc)
         # named const item of a loaded crate
         nm = self._resolve_item(fr.fn.crate, c)
         if nm is not None and self.p.fns[nm].kind == 'const':
